@@ -11,6 +11,7 @@ ASSUMPTIONS = [
     "durations are arbitrary integers >= 0 (z3 Int, unbounded above)",
     "shapes bounded as in coverage.bounds",
     "builtins max/min modelled as If-terms, int() identity on integer terms",
+    "'bystander' sub-spaces keep a second dispatcher on the same instance object (one step ahead, own history, queried) and a dispatcher on another instance with the same name alive and moving between the dispatches (common.Bystander)",
     "probe variants also send, before every dispatch, every request that must be rejected (ineligible in-range machine, operation not ready) to "
     "the dispatcher under test and swallow the exception: only accepted requests form the history",
     "probe variants issue public queries (current_time, start_time on every eligible machine, earliest_start_time, ongoing/uncompleted) between dispatches",
@@ -51,6 +52,8 @@ def subspaces(tier):
     out += C.tall_subspaces(filter="none") + C.tall_subspaces(filter="default_pair", shapes=((7, 3),))
     out += C.structure_subspaces(D.shapes(3, 3) + [(2, 2)], 2, False, filter="none", observed="atj")
     out += C.structure_subspaces(D.shapes(3, 3), 2, False, canonical=True, filter="default_pair", observed="disj")
+    out += C.structure_subspaces(D.shapes(3, 3) + [(2, 2)], 2, False, canonical=True, filter="none", bystander=True)
+    out += C.structure_subspaces(D.shapes(2, 2), 2, True, only_flexible=True, filter="default_pair", bystander=True)
     if tier == "thorough":
         out += C.structure_subspaces(s4, 2, False, filter="none", reset_prefix=True)
         out += C.structure_subspaces([s for s in s4 if sum(s) == 4], 2, True, only_flexible=True, filter="none")
@@ -99,10 +102,13 @@ def harness(eng, sp):
         # one of every observer the library ships is subscribed as well: none may disturb start times or bookkeeping
         C.attach_library_observers(disp, inst, sp["observed"])
     spec = Spec(desc)
+    by = C.Bystander(inst) if sp.get("bystander") else None
     reset_at = eng.choice(desc.n_ops + 1, "reset_at") if sp.get("reset_prefix") else desc.n_ops
     for k in range(desc.n_ops):
         if k == reset_at:
             break
+        if by:
+            by.step()
         if filt != "none":
             disp.available_operations()
         if sp.get("probe"):
